@@ -480,6 +480,13 @@ func c19Groups(m *Model, v *Verdict, rng *RNG) {
 			k.ResourceGroupIDs = append(k.ResourceGroupIDs, mstypes.GroupMembership{RelativeID: rid})
 			c = append(c, fmt.Sprintf("%s-%d", res.String(), rid))
 		}
+		// the user flags say which of the optional lists are filled in (MS-PAC 2.5: D = extra SIDs, H = resource groups)
+		if len(b) > 0 {
+			k.UserFlags |= 0x20
+		}
+		if len(c) > 0 {
+			k.UserFlags |= 0x200
+		}
 		got := k.GetGroupMembershipSIDs()
 		mo := m.Ask(fmt.Sprintf("pac.groups %s %s %s", tok(a), tok(b), tok(c)))
 		v.Case(fmt.Sprintf("groups/%d/%d/%d", len(a), len(b), len(c)), "group SIDs")
